@@ -61,7 +61,7 @@ def isRelS (mo : String) : Bool := mo == "rel" || mo == "acq_rel" || mo == "sc"
 
 /-- one atomic event of thread `t` -/
 def hbEvent (s : HbMon) (t : Nat) (op loc mo moFail : String) (ok : Bool) : HbMon :=
-  if op == "start" || op.startsWith "pay" || op.startsWith "hb." || op == "hold" then
+  if op == "start" || op.startsWith "pay" || op.startsWith "hb." || op == "hold" || op == "await" then
     s.setClock t (vcTick (s.clock t) t)
   else
   let c0 := vcTick (s.clock t) t
